@@ -83,6 +83,18 @@ func checkOne(src string, want *gen.Outcome, names []string) (sig, detail string
 		return "marshal-error", err.Error(), st
 	}
 	st.nbytes = len(b1)
+	// the bytes handed out belong to the caller: marshalling other code afterwards must not change them
+	keep := append([]byte(nil), b1...)
+	if other := otherCode(); other != nil {
+		for i := 0; i < 2; i++ {
+			if p := safely(func() { _, err = compiler.MarshalCode(other[i%len(other)]) }); p != "" || err != nil {
+				return "marshal-panic", fmt.Sprint(p, err), st
+			}
+		}
+	}
+	if !bytes.Equal(b1, keep) {
+		return "marshalled-bytes-change-under-later-marshal", firstDiff(keep, b1), st
+	}
 	if p := safely(func() { b1b, err = compiler.MarshalCode(c1.Code) }); p != "" || err != nil {
 		return "marshal-panic", fmt.Sprint(p, err), st
 	}
@@ -206,6 +218,20 @@ func boundarySources() []string {
 	return out
 }
 
+// otherCode: two small unrelated programs (one shorter, one longer than most), compiled once per process.
+var otherCodes []*compiler.Code
+
+func otherCode() []*compiler.Code {
+	if otherCodes == nil {
+		for _, src := range []string{"1 + 6\n", "func zz(a, b=2) { return [a, b, \"" + strings.Repeat("pad", 400) + "\"] }\nzz(1)\n"} {
+			if c := rz.Compile(src, rz.Opts{}); c.Code != nil {
+				otherCodes = append(otherCodes, c.Code)
+			}
+		}
+	}
+	return otherCodes
+}
+
 func worker(kind string, data json.RawMessage) any {
 	var c caseData
 	if err := json.Unmarshal(data, &c); err != nil {
@@ -223,6 +249,12 @@ func worker(kind string, data json.RawMessage) any {
 			"f := func(s=\"\", t=\"2.0\", n=0, m=-1, ok=false, z=3.0) { return [s, t, n, m, ok, 10 / z, type(z), type(n)] }\n[f(), f(\"x\")]\n",
 			"x := [2.0, 1.0, 0.0, -3.0, 1e0, 4.0e0]\ny := x.map(func(v) { return [type(v), 7 / (v + 10)] })\n[y, {\"k\": 6.0}, 9 / 3.0, type(6.0)]\n",
 			"func outer(p=5.0) { inner := func(q=2.0, r=8) { return [p / q, r / q, type(q), type(r)] }; return inner() }\nouter()\n",
+			// nil defaults at every position relative to other defaults (a nil default still counts as "no
+			// default" for the required-argument count — recorded finding D12 — so every call passes enough)
+			"func join(items, sep=\", \", conv=nil) { return [items, sep, conv] }\n[join([1, 2], \"; \"), join([1], \"-\", 3)]\n",
+			"func f(a=1, b=nil) { return [a, b] }\nfunc g(a=nil, b=2, c=nil, d=\"x\") { return [a, b, c, d] }\n[f(7), f(7, 8), g(1, 5), g(1, 5, 6), g(1, 5, 6, \"y\")]\n",
+			"h := func(x, y=nil, z=3.5) { return [x, y, z] }\n[h(1, 2), h(1, 2, 3), try(func() { return h(1) }, \"args\")]\n",
+			"func k(a, b=\"s\", c=nil, d=nil) { return [a, b, c, d] }\n[k(1, 2, 3), k(1, \"t\", nil), k(1, 2, 3, 4)]\n",
 		}...) {
 			o.Programs++
 			sig, detail, st := checkOne(src, nil, nil)
